@@ -836,6 +836,9 @@ META = (META[0] + ' WORDSPLIT (every (word, offset) pair basic_bitset hands to a
 META = (META[0] + ' SELFGUARD (a non-idempotent compound assignment such as ^= is not skipped for the object itself; controls in fixtures/extra10_pos.hpp).', META[1])
 
 
+META = (META[0] + ' UNCOND (compound operators apply their operation on every path).', META[1])
+
+
 def run(chk, tier):
     db = D.load("checks")
     from ..rules import params as _PR
@@ -863,6 +866,8 @@ def run(chk, tier):
     if _X10.self_guard_area(chk, db, ['_bitset/']) < 2:      # SELFGUARD: b ^= b clears
         chk.analysis_broken('SELFGUARD: fewer than 2 non-idempotent compound assignments of the bitsets found (floor 2)')
     _X10.positive_controls(chk, D, ('SELFGUARD',))
+    from ..rules import extra12 as _X12
+    _X12.unconditional_area(chk, db, ['_bitset/'])      # UNCOND
     from ..rules import shift as _SH
     _SH.check(chk, db, ["_bit/", "_bitset/"], floor=20)      # SHIFT: shift counts stay below the promoted operand width
     strbit_rule(chk, db)
@@ -1130,7 +1135,7 @@ def litmask_rule(chk, db, prefixes=("_bitset/",)):
     return n
 
 
-PROMOTED_ONLY = re.compile(r"^!\(.*is_same(_v)?\s*<.*decltype\s*\(\s*\+")
+PROMOTED_ONLY = re.compile(r"is_same(_v)?\s*<.*decltype\s*\(\s*\+")
 
 
 def litmask_sites(f):
@@ -1142,4 +1147,4 @@ def litmask_sites(f):
         return x.get("k") == "bin" and x.get("op") in ("<<", "<<=") and (x.get("l") or {}).get("k") == "int" and \
             (x["l"].get("ty") or "int") in ("int", "unsigned int") and astx.strip_casts(x["r"]) is not None and \
             astx.strip_casts(x["r"]).get("k") != "int"
-    return [x for x, conds in _X10.guarded_nodes(f, pred) if not any(PROMOTED_ONLY.search(c) for c in conds)]
+    return [x for x, conds in _X10.guarded_nodes(f, pred) if not any(PROMOTED_ONLY.search(c) for c in _X10.negative_conditions(conds))]
